@@ -218,7 +218,9 @@ func runC11(ctx *runCtx) {
 	keys := [][]string{{k16}, {testKey}, {" " + k16 + " "}, {nonCanon(k16, 1)}, {nonCanon(k16, 10)}, {nonCanon(testKey, 15)}, nil, {k16, k16}, {base64.StdEncoding.EncodeToString(randBytes(rng, 15))}, {base64.StdEncoding.EncodeToString(randBytes(rng, 17))},
 		{"not base64!!not base64!!"}, {""}, {k16[:22]}, {strings.TrimRight(k16, "=")},
 		{base64.StdEncoding.EncodeToString(randBytes(rng, 18))}, {base64.StdEncoding.EncodeToString(randBytes(rng, 19))}, {base64.StdEncoding.EncodeToString(randBytes(rng, 24))},
-		{base64.StdEncoding.EncodeToString(randBytes(rng, 32))}, {base64.StdEncoding.EncodeToString(randBytes(rng, 64))}, {base64.StdEncoding.EncodeToString(randBytes(rng, 1))}, {"===="}, {"A==="}}
+		{base64.StdEncoding.EncodeToString(randBytes(rng, 32))}, {base64.StdEncoding.EncodeToString(randBytes(rng, 64))}, {base64.StdEncoding.EncodeToString(randBytes(rng, 1))}, {"===="}, {"A==="},
+		// several key header lines of which all but one are blank: still more than one key header
+		{"", k16}, {k16, ""}, {" ", k16}, {k16, " ", ""}, {"", ""}}
 	offered := [][]string{nil, {"chat"}, {"chat, superchat"}, {"Chat"}, {"superchat", "chat"}, {"x"}, {""}}
 	supported := [][]string{nil, {"chat"}, {"superchat", "chat"}, {"CHAT"}, {"y", "x"}}
 	var cases []*c11Case
